@@ -361,3 +361,30 @@ package m3
 //@   ensures @pos_inf d == 9223372036854775807 ==> result == "infinity"
 //@   ensures @neg_inf d == -9223372036854775808 ==> result == "-infinity"
 //@   ensures @quiet quiet()
+
+// heap-allocated handles (one per histogram bucket) are only written while they are being built
+//@ initonly cachedMetric.metric, cachedMetric.reporter, cachedMetric.size
+
+//@ pred vbs(r *reporter, v float64) { v == math.MaxFloat64 ? "infinity" : (v == -math.MaxFloat64 ? "-infinity" : sprintf(r.bucketValFmt, v)) }
+//@ pred upv(p tally.BucketPair) { pcall(tally.BucketPair.UpperBoundValue, p) }
+//@ pred upd(p tally.BucketPair) { pcall(tally.BucketPair.UpperBoundDuration, p) }
+//@ pred bucketHandle(b cachedHistogramBucket, r *reporter, name string, tags map[string]string) { b.metric != nil && b.metric.reporter == r && b.metric.metric.Name == name && b.metric.metric.Value.MetricType == m3thrift.MetricType_COUNTER && tagsAre(b.metric.metric.Tags, tags) }
+
+//@ func (*reporter).AllocateHistogram
+//@   property C13
+//@   allocs
+//@   witness idfmt string = bucketIDFmt
+//@   requires allocWF(r) && notTheInternTable(r, tags) && buckets != nil && (is(buckets, tally.ValueBuckets) || is(buckets, tally.DurationBuckets))
+//@   requires @finite_value_bounds is(buckets, tally.ValueBuckets) ==> (forall k int :: 0 <= k && k < len(dyn(buckets, tally.ValueBuckets)) ==> !isNaN(dyn(buckets, tally.ValueBuckets)[k]) && !isInf(dyn(buckets, tally.ValueBuckets)[k]))
+//@   modifies r.tagCache.entries, r.stringInterner.entries
+//@   ensures @a_histogram_handle is(result, cachedHistogram) && dyn(result, cachedHistogram).r == r && dyn(result, cachedHistogram).name == name
+//@   ensures @value_buckets_in_order_with_their_ids_bounds_and_tags is(buckets, tally.ValueBuckets) ==> len(dyn(result, cachedHistogram).cachedDurationBuckets) == 0 && (forall j int :: 0 <= j && j < len(dyn(result, cachedHistogram).cachedValueBuckets) ==> bucketHandle(dyn(result, cachedHistogram).cachedValueBuckets[j], r, name, tags) && dyn(result, cachedHistogram).cachedValueBuckets[j].bucketID == sprintf(idfmt, typed(int, j)) && dyn(result, cachedHistogram).cachedValueBuckets[j].bucket == (vbs(r, (j == 0 ? -math.MaxFloat64 : dyn(result, cachedHistogram).cachedValueBuckets[j-1].valueUpperBound)) + "-") + vbs(r, dyn(result, cachedHistogram).cachedValueBuckets[j].valueUpperBound))
+//@   ensures @duration_buckets_in_order_with_their_ids_and_tags is(buckets, tally.DurationBuckets) ==> len(dyn(result, cachedHistogram).cachedValueBuckets) == 0 && (forall j int :: 0 <= j && j < len(dyn(result, cachedHistogram).cachedDurationBuckets) ==> bucketHandle(dyn(result, cachedHistogram).cachedDurationBuckets[j], r, name, tags) && dyn(result, cachedHistogram).cachedDurationBuckets[j].bucketID == sprintf(idfmt, typed(int, j)))
+//@   ensures @quiet quiet()
+//@   loop 1 invariant @idx 0 <= rangeindex+1 && rangeindex+1 <= len(ranged()) && quiet() && tagsAre(mtags, tags)
+//@   loop 1 invariant @pairs forall j int :: 0 <= j && j < len(ranged()) ==> ranged()[j] != nil && is(ranged()[j], tally.bucketPair)
+//@   loop 1 invariant @only_the_intern_table_changes other_maps_unchanged(r.stringInterner.entries)
+//@   loop 1 invariant @one_handle_per_bucket_so_far (isDuration ==> len(cachedDurationBuckets) == rangeindex+1 && len(cachedValueBuckets) == 0) && (!isDuration ==> len(cachedValueBuckets) == rangeindex+1 && len(cachedDurationBuckets) == 0)
+//@   loop 1 invariant @previous_bound (rangeindex+1 == 0 ==> same(prevValue, -math.MaxFloat64)) && (rangeindex+1 > 0 && !isDuration ==> same(prevValue, cachedValueBuckets[rangeindex].valueUpperBound))
+//@   loop 1 invariant @duration_handles_so_far isDuration ==> (forall j int :: 0 <= j && j <= rangeindex ==> bucketHandle(cachedDurationBuckets[j], r, name, tags) && cachedDurationBuckets[j].bucketID == sprintf(bucketIDFmt, typed(int, j)))
+//@   loop 1 invariant @handles_so_far !isDuration ==> (forall j int :: 0 <= j && j <= rangeindex ==> bucketHandle(cachedValueBuckets[j], r, name, tags) && cachedValueBuckets[j].bucketID == sprintf(bucketIDFmt, typed(int, j)) && cachedValueBuckets[j].bucket == (vbs(r, (j == 0 ? -math.MaxFloat64 : cachedValueBuckets[j-1].valueUpperBound)) + "-") + vbs(r, cachedValueBuckets[j].valueUpperBound))
